@@ -55,6 +55,7 @@ struct Gen {
   std::string body_xml, eq_xml, tendon_xml, act_xml, sensor_xml, contact_xml, key_ctrl;
   std::vector<std::string> bodies, hinges, slides, alljoints1d, sites, geoms, freebodies;
   Model m;
+  bool f_materials = false;   // materials (one of them fully transparent) and per-geom colours
   bool f_adhesion = false, f_surfacevel = false, f_gravcomp = false;   // per-model features behind the mjModel.flg_* switches
   Gen(Rng& rr, const GenOpts& oo, const std::set<int>& md) : r(rr), o(oo), mdrop(md) {}
   bool keep() { return !mdrop.count(elem++); }
@@ -75,6 +76,8 @@ struct Gen {
     if (r.chance(0.2)) g += " friction=\"" + f(r.uniform(0.2, 1.5)) + " 0.005 0.0001\"";
     if (r.chance(0.15)) g += " condim=\"" + std::to_string(r.chance(0.5) ? 1 : (r.chance(0.5) ? 4 : 6)) + "\"";
     if (r.chance(0.1)) g += " group=\"" + std::to_string(r.range(1, 3)) + "\"";
+    if (f_materials && r.chance(0.35)) g += std::string(" material=\"") + (r.chance(0.4) ? "mGhost" : "mSolid") + "\"";
+    if (f_materials && r.chance(0.3)) g += " rgba=\"" + f(r.uniform(0, 1)) + " " + f(r.uniform(0, 1)) + " 0.3 " + (r.chance(0.25) ? std::string("0") : f(r.uniform(0.3, 1))) + "\"";
     if (f_adhesion && r.chance(0.4)) g += " adhesion=\"" + f(r.uniform(0.2, 3)) + "\"" + (r.chance(0.3) ? " margin=\"0.01\" gap=\"0.01\"" : "");
     if (f_surfacevel && r.chance(0.4)) g += " surfacevel=\"" + vec3(r.uniform(-0.3, 0.3), r.uniform(-0.3, 0.3), 0) + " " + vec3(0, 0, r.uniform(-1, 1)) + "\"";
     if (!o.contacts) g += " contype=\"0\" conaffinity=\"0\"";
@@ -149,7 +152,7 @@ struct Gen {
     opt += "/></option>";
 
     // ---------------- bodies
-    f_adhesion = r.chance(0.12); f_surfacevel = r.chance(0.1); f_gravcomp = r.chance(0.12);
+    f_adhesion = r.chance(0.12); f_surfacevel = r.chance(0.1); f_gravcomp = r.chance(0.12); f_materials = r.chance(0.2);
     std::string wb = "<worldbody>";
     if (o.contacts) wb += "<geom name=\"floor\" type=\"plane\" size=\"5 5 0.1\"/>";
     wb += "<site name=\"s_world\" pos=\"0 0 1\" size=\"0.01\"/>";
@@ -255,6 +258,9 @@ struct Gen {
         m.nact++; m.nu++;
       }
       if (!tendons.empty() && r.chance(0.4) && keep()) { act += "<motor name=\"a_t\" tendon=\"" + tendons[0] + "\" gear=\"1\"/>"; m.nact++; m.nu++; }
+      // actuators whose transmission target sits on a body without degrees of freedom (world site with a moving reference site; adhesion on the world's geoms)
+      if (sites.size() > 1 && r.chance(0.12) && keep()) { act += "<general name=\"a_ref\" site=\"s_world\" refsite=\"" + sites[1] + "\" gear=\"0 0 1 0 0 0\" gainprm=\"2\"/>"; m.nact++; m.nu++; }
+      if (o.contacts && r.chance(0.1) && keep()) { act += "<adhesion name=\"a_adh\" body=\"world\" ctrlrange=\"0 1\" gain=\"3\"/>"; m.nact++; m.nu++; }
       if (!freebodies.empty() && sites.size() > 1 && r.chance(0.2) && keep()) { act += "<motor name=\"a_s\" site=\"" + sites[1] + "\" gear=\"0 0 1 0 0 0\"/>"; m.nact++; m.nu++; }
     }
     // ---------------- sensors
@@ -284,7 +290,8 @@ struct Gen {
       if (r.chance(0.2) && keep()) { sen += "<clock/>"; m.nsensor++; }
     }
     // ---------------- assemble (keyframes need sizes, so they only set time and let the rest default)
-    std::string x = "<mujoco model=\"gen\"><compiler angle=\"radian\" usethread=\"false\"/>" + opt + "<size memory=\"" + o.memory + "\"/>" + wb;
+    std::string x = "<mujoco model=\"gen\"><compiler angle=\"radian\" usethread=\"false\"/>" + opt + "<size memory=\"" + o.memory + "\"/>" +
+                    (f_materials ? "<asset><material name=\"mSolid\" rgba=\"0.8 0.3 0.2 1\"/><material name=\"mGhost\" rgba=\"0.2 0.3 0.8 0\"/></asset>" : "") + wb;
     if (!contact.empty()) x += "<contact>" + contact + "</contact>";
     if (!eq.empty()) x += "<equality>" + eq + "</equality>";
     if (!ten.empty()) x += "<tendon>" + ten + "</tendon>";
@@ -308,6 +315,7 @@ struct Gen {
              m.nact, m.nsensor, m.ntendon, m.neq, m.nkey, m.nmocap, m.npair, integ[m.integrator], solv[m.solver], cone[m.cone], (int)m.island, (int)m.sleep);
     m.summary = b;
     if (f_adhesion || f_surfacevel || f_gravcomp) { m.summary.pop_back(); m.summary += std::string(f_adhesion ? " adhesion" : "") + (f_surfacevel ? " surfacevel" : "") + (f_gravcomp ? " gravcomp" : "") + ")"; }
+    if (f_materials) { m.summary.pop_back(); m.summary += " materials)"; }
     return m;
   }
 };
